@@ -58,9 +58,24 @@
               for every libm, and hence no decode ever panics; the Bézier
               subdivision fuel suffices in IEEE arithmetic for n control
               points within +-2^E when n * 2^E <= 2^22
-              ([C01_T01g_ieee_bounded]).  OPEN: the same for the remaining
-              segments a file can contain (more control points, far from
-              the origin) (T01g, partial by design; proved for reals and
+              ([C01_T01g_ieee_bounded]).  PROVED at the level of whole
+              files: the parser only ever stores control points that are
+              finite and within +-2^18 of the slider head
+              ([C01_parsed_control_points_bounded], an invariant of the
+              parser state over all line sequences, kept by the finishing
+              conversion), so every list of lines -- and every byte
+              stream / reader state delivering them -- in which each
+              slider has at most 16 control points, or n control points
+              inside +-2^E of its head with n * 2^E <= 2^22, decodes to a
+              VALUE with the pinned fuels, given an atan2 with values in
+              [-PI, PI]: never OutOfFuel, never Panic, never Err
+              ([C01_decode_terminates_bounded], [.._graded], [.._bounded_lines]
+              with a decidable condition on the input lines,
+              [C01_decode_bytes_terminates_bounded]; with the encoder:
+              [C01_decode_encode_terminates_bounded]).  OPEN: the same for
+              the remaining sliders a file can contain: more than 16
+              control points with some of them farther than 2^22 / n from
+              the head (T01g, partial by design; proved for reals and
               for the flat classes; REFUTED for unbounded coordinates,
               finding D25 -- public API only));
      LAYER 4  (re-encoding: see the section "LAYER 4" at the end of this file.
@@ -676,8 +691,19 @@ Proof. exact (conj BezierIEEEFinite.seg_fin_dump BezierIEEEFinite.seg_fin_finite
    most 3u, so D' <= D/4 + n u, fixed point 4nu/3 <= 3/16.
    ([C01_T01g_ieee_bounded_via_exact_child] is the first, weaker form, (n - 1)
    * 2^E <= 2^19, obtained by comparing with the exact child.)
-   REMAINS OPEN: segments with n * 2^E > 2^22 inside the parser's range (many
-   control points far from the origin).  The worst-case bound n u is linear
+   LIFTED TO WHOLE FILES (section "LAYERS (1+)2+3, hang, for whole files"
+   below): the premise "coordinates finite, |x| <= 2^18" of the full statement
+   IS proved of everything the parser stores
+   ([C01_parsed_control_points_bounded]); hence decoding any file whose sliders
+   have <= 16 control points each (or fit n * 2^E <= 2^22 with their own E)
+   returns a value ([C01_decode_terminates_bounded], [.._graded],
+   [.._bounded_lines], [C01_decode_bytes_terminates_bounded]).
+   REMAINS OPEN: segments with n * 2^E > 2^22 inside the parser's range (more
+   than 16 control points, some of them far from the slider head; the count in
+   the decode-level theorems is per slider, the curve hands the Bezier routine
+   one segment at a time, so the count could be taken per segment -- not
+   mechanised).
+   The worst-case bound n u is linear
    in n and exceeds the tolerance there; the true growth is logarithmic in n
    (the 4u increments have alternating signs that the next averaging step
    cancels), not mechanised; no such segment that fails to return was found
